@@ -21,6 +21,8 @@ ASSUMPTIONS = [
     "the list of observing operations is complete: on every run the public headers (database.hpp, crate.hpp, "
     "track.hpp, engine.hpp, engine/v2/*_table.hpp, engine_library.hpp) are scanned and every member function must be "
     "classified observer (then it must have been exercised) or mutator",
+    "directory shapes: file content is abstracted to absent / valid (written by the real creators) / zero bytes / "
+    "garbage; symbolic links, permissions, concurrent writers and hot journals are not enumerated",
     "an observer's statement sequence may depend on the state (all distinct observed sequences are recorded and each "
     "one is decided by Lean)",
 ]
@@ -39,7 +41,13 @@ MANIFEST = dict(
          "generated histories on on-disk libraries: the observed statement-kind sequence of each application is decided "
          "by Lean's isObserver (so the theorem applies to exactly the observed shape) and, independently, "
          "sqlite3_total_changes delta = 0, equal answers, raw dump of every table identical, SHA-256 of the database "
-         "files unchanged.",
+         "files unchanged. Directory model (Spec/Dir.lean): C16_load_database_pure / C16_database_exists_pure / "
+         "C16_engine_library_load_pure / C16_create_or_load_existing_pure: over a model of the library directory (m.db, "
+         "p.db, Database2/, Database2/m.db each absent / valid / zero bytes / garbage) whose primitives create files as "
+         "SQLite does, the static entry points leave every directory as it was (counterexamples for the code before "
+         "fix 6269a0f and for seeded C16-2); tied by applying every static entry point that takes a directory twice to a "
+         "fresh copy of all 81 directory shapes with a recursive listing + SHA-256 before/after as oracle and the model's "
+         "answers + resulting directory compared on every probe. C16_tracks_v1: accessors of the 1.x track model.",
     note="Trusted/limits: the classification of a real statement as read-only is SQLite's sqlite3_stmt_readonly (checked "
          "against change counter, raw dump and file hash on every application, not proved); states are sampled "
          "(generated histories, every prefix), the for-all over states is proved for the model only; table-API states "
@@ -55,6 +63,9 @@ SELF_TEST = {"recorded": "2026-09-29, scratch worktree of /repo, quick tier seed
     "seeded/sv-C16-load-stamp (load_database increments a counter in Information)": "caught: engine.database_exists / load_database / create_or_load, SHA-256 of the files changed",
     "seeded/sv-C16-verify-analyze (verify() runs ANALYZE; also killed by the unit-test suite)": "caught: db.verify, raw dump differs",
     "seeded/sv-C16-exists-creates (database_exists through create_or_load_database)": "caught: engine.database_exists(no directory), a library appeared",
+    "seeded/C16-2 (independent: load_database2_sqlite_database opens instead of path_exists)": "missed by round 1, caught by the directory-shape stream: v2.engine_library.load on 'Database2/ present and empty' creates Database2/m.db",
+    "seeded/sv2-C16-revert-pdb-check (reverts fix 6269a0f)": "caught: load_database / database_exists on 'm.db valid, p.db absent' create p.db",
+    "seeded/sv2-refactor-extra-select (behaviour preserving)": "green",
     "seeded/sv-refactor-getter-in-scope (behaviour preserving)": "green (no-write, closed shape)",
     "seeded/sv-refactor-reorder-writes (behaviour preserving)": "green"}}
 
